@@ -114,6 +114,23 @@ def run(ctx):
             dod, Lf, table = oracle.table_oracle(edges, w, [False] * 10, [0, 9], 3)
             cases.append(dict(edges=edges, weights=w, massive=[False] * 10, ext=[0, 9], D=3, table=table, dod=dod, loops=Lf,
                               accepted=not oracle.divergent_subsets(table), name="long_chain"))
+    # disconnected graphs (loops = E - V + components): accepted ones whose spanning subgraphs would be divergent with one loop fewer, in
+    # every run
+    from .. import samples as S_
+    got = 0
+    for _ in range(80):
+        if got >= (6 if ctx.quick else 24):
+            break
+        cc = S_.make_special_case(rng, "disconnected")
+        if cc is None:
+            continue
+        # discriminating: with the loop number of a connected graph (1 + E - V) the overall dod grows by D/2 per extra component and some spanning
+        # subset drops to omega <= 0
+        nE = len(cc["edges"])
+        extra = Fraction(cc["D"], 2)
+        if any(t[1] and 0 < t[2] <= extra for t in cc["table"][1:(1 << nE) - 1]):
+            cases.append(dict(cc, name="disconnected")); got += 1
+    ctx.count("disconnected_cases", got)
     # the same endpoints, weights and externals under another mass pattern (history inside one process)
     for c in list(cases[: (25 if ctx.quick else 200)]):
         c2 = graphs.remass(rng, c)
